@@ -316,3 +316,24 @@ Definition names_guard (sc : scope) : bool :=
   | EnumScope d =>
       forallb (fun ev => letter_boundaries (ev_name ev) && cases_distinct (ev_cases ev)) (ed_values d)
   end.
+
+(* ------------------------------------------------------------------------- *)
+(* 4. include guards (_generate_header_guard)                                  *)
+(* ------------------------------------------------------------------------- *)
+
+Definition guard_char (c : ascii) : ascii :=
+  if is_upper c || is_lower c || is_digit c || Ascii.eqb c underscore then c else underscore.
+
+Fixpoint collapse_underscores (prev : bool) (s : string) : string :=
+  match s with
+  | EmptyString => EmptyString
+  | String c r =>
+      if Ascii.eqb c underscore
+      then (if prev then collapse_underscores true r else String c (collapse_underscores true r))
+      else String c (collapse_underscores false r)
+  end.
+
+(* (path + ".h").upper(), [^A-Za-z0-9_] -> "_", append "_", "__+" -> "_" *)
+Definition header_guard (path : string) : string :=
+  collapse_underscores false
+    (map_string guard_char (map_string to_upper (path ++ ".h")) ++ "_")%string.
